@@ -284,8 +284,9 @@ impl CountField {
                 Some(PhysicalType::F64) => col.get_f64_at(row_idx).is_some(),
                 Some(PhysicalType::Bool) => col.get_bool_at(row_idx).is_some(),
                 _ => {
-                    // For string/untyped columns, use get_str_at
-                    col.get_str_at(row_idx).is_some()
+                    // For string/untyped columns, use get_str_at; a NULL row reads as ""
+                    // there and is only marked in the null bitmap
+                    col.get_str_at(row_idx).is_some() && !col.is_null_at(row_idx)
                 }
             };
 
